@@ -560,7 +560,9 @@ func relinkCase(in map[string]any) map[string]any {
 				if len(ms) == 0 {
 					continue
 				}
-				mdumps = append(mdumps, map[string]any{"name": f.Path(), "msgs": ms, "rl_err": d2.errByFile["map-entry-ref|"+f.Path()]})
+				mdumps = append(mdumps, map[string]any{"name": f.Path(), "msgs": ms, "rl_err": d2.errByFile["map-entry-ref|"+f.Path()],
+					// errors reported in all files: after an error in one file the files that depend on it are not linked
+					"rl_all_err": int64(len(d2.errors))})
 			}
 			out["mcorr"] = mdumps
 		}
